@@ -3,14 +3,19 @@ package checks
 import (
 	"bytes"
 	"crypto/sha256"
+	"encoding/json"
 	"fmt"
 	"sort"
 	"strings"
 	"time"
 
+	"github.com/cosmos/cosmos-sdk/codec"
 	sdk "github.com/cosmos/cosmos-sdk/types"
 	"github.com/cosmos/cosmos-sdk/types/query"
+	authtypes "github.com/cosmos/cosmos-sdk/x/auth/types"
 	"github.com/cosmos/cosmos-sdk/x/authz"
+	govtypes "github.com/cosmos/cosmos-sdk/x/gov/types"
+	govv1 "github.com/cosmos/cosmos-sdk/x/gov/types/v1"
 	pnfttypes "github.com/medibloc/panacea-core/v2/x/pnft/types"
 
 	"verif/engine/explore"
@@ -218,6 +223,10 @@ func pnftJudgeTx(m *pnftModel, spec *world.TxSpec, now time.Time, strictDelete b
 			return mustReject, "no grant", nil
 		}
 		return mustAccept, "", func() { delete(m.Grants, k) }
+	case *govv1.MsgSubmitProposal, *govv1.MsgVote:
+		// governance traffic is not this repository's: followed. What a proposal does to PNFT state when the gov module's
+		// end blocker executes it is judged by the state oracle (the gov module account never owns anything here).
+		return eitherWay, "", nil
 	case *authz.MsgExec:
 		grantee, _ := sdk.AccAddressFromBech32(x.Grantee)
 		inner, _ := x.GetMessages()
@@ -268,6 +277,8 @@ type pnftVariant struct {
 	Auth         bool // C06: forged + authz entries
 	Queries      bool // C12: full query matrix per state
 	StrictDelete bool // reference refuses deleting a denom that still has tokens
+	Gov          bool // C06/gov: reduced PNFT alphabet + the governance route (proposal, vote, gov end blocker)
+	Bulk         int  // genesis-injected filler denoms (owners A/B alternating), each holding one token owned by C
 	Ctl          []string
 }
 
@@ -318,6 +329,9 @@ func pnftOps(e *pnftEnv, v pnftVariant) []explore.Op {
 			desc, uri, hash, data = "", "", "", ""
 		}
 		return txOp(fmt.Sprintf("Mint(%s,%s,%s)", q(denom), q(id), by.Name), s(by), pnfttypes.NewMsgMintPNFTRequest(denom, id, "tok-"+by.Name, desc, uri, hash, by.Bech, data))
+	}
+	if v.Gov {
+		return pnftGovOps(e, v, createDenom, mint)
 	}
 	ops = append(ops,
 		createDenom("d", A, A.Bech), createDenom("d", B, B.Bech), createDenom("dd", A, A.Bech),
@@ -428,11 +442,41 @@ func pnftSystem(v pnftVariant) *explore.System {
 		Ops:    pnftOps(env, v),
 		Clone:  func(m any) any { return m.(*pnftModel).clone() },
 		Fresh: func() (*world.World, any) {
-			return world.New(world.Options{Accounts: []*world.Account{env.A, env.B, env.C}}), newPnftModel()
+			opts := world.Options{Accounts: []*world.Account{env.A, env.B, env.C}}
+			m := newPnftModel()
+			if v.Gov { // governance with a one-block voting period and a small deposit
+				opts.Mutate = func(gs map[string]json.RawMessage, cdc codec.Codec) {
+					var g govv1.GenesisState
+					cdc.MustUnmarshalJSON(gs["gov"], &g)
+					vp := 5 * time.Second
+					g.Params.VotingPeriod = &vp
+					g.Params.MinDeposit = sdk.NewCoins(sdk.NewInt64Coin("umed", 10))
+					gs["gov"] = cdc.MustMarshalJSON(&g)
+				}
+			}
+			if v.Bulk > 0 {
+				var pg pnfttypes.GenesisState
+				for i := 0; i < v.Bulk; i++ {
+					owner := env.A
+					if i%2 == 1 {
+						owner = env.B
+					}
+					dn := fmt.Sprintf("den%03d", i)
+					pg.Denoms = append(pg.Denoms, &pnfttypes.Denom{Id: dn, Name: "n", Symbol: "S", Owner: owner.Bech})
+					pg.Pnfts = append(pg.Pnfts, &pnfttypes.Pnft{DenomId: dn, Id: "t", Name: "tok", Creator: owner.Bech, Owner: env.C.Bech, CreatedAt: world.BaseTime})
+					m.Denoms[dn] = &pDenom{ID: dn, Name: "n", Symbol: "S", Owner: owner.Bech}
+					m.Tokens[tokKey(dn, "t")] = &pToken{Denom: dn, ID: "t", Name: "tok", Creator: owner.Bech, CreatedAt: world.BaseTime, Owner: string(env.C.Addr)}
+				}
+				opts.Mutate = func(gs map[string]json.RawMessage, cdc codec.Codec) { gs["pnft"] = cdc.MustMarshalJSON(&pg) }
+			}
+			return world.New(opts), m
 		},
 	}
 	if !v.Auth {
 		sys.Stores = []string{"pnft"}
+	}
+	if v.Gov {
+		sys.Stores = []string{"pnft", "gov"}
 	}
 	sys.Extra = func(m any) []byte { return m.(*pnftModel).hash() }
 	sys.OnStep = func(s *explore.Step) {
@@ -459,7 +503,23 @@ func pnftSystem(v pnftVariant) *explore.System {
 			s.Fail("rejected-changed-state", "rejected-changed-state:"+s.Op.Name, "refused request changed the pnft store: %s", world.DiffKVs(s.Pre["pnft"], post))
 		}
 	}
-	sys.OnState = func(s *explore.State) { pnftCheckState(s, s.M.(*pnftModel), env, v) }
+	sys.OnState = func(s *explore.State) {
+		pnftCheckState(s, s.M.(*pnftModel), env, v)
+		if v.Gov {
+			// end-of-block processing (other modules' end blockers, e.g. a passed governance proposal) acts with nobody's
+			// signature: it must leave denoms, tokens and owners exactly as they are
+			before := s.W.Dump("pnft")
+			discard := s.W.Fork()
+			p := guard(func() { s.W.EndBlock() })
+			after := s.W.Dump("pnft")
+			discard()
+			if p != "" {
+				s.Fail("endblock-panic", "endblock-panic", "EndBlock panicked: %s", firstLineOf(p))
+			} else if !world.EqualKVs(before, after) {
+				s.Fail("unsigned-change", "unsigned-change:endblock", "end-of-block processing changed PNFT state without any owner's signature: %s", world.DiffKVs(before, after))
+			}
+		}
+	}
 	sys.Outcome = func(s *explore.Step) string {
 		cls := strings.SplitN(s.Op.Name, "(", 2)[0]
 		if s.Res.Code == 0 {
@@ -654,12 +714,21 @@ func C06(t Tier) int {
 	run := report.NewRun("C06", t.Name, "model_checking", "E1+E2")
 	sys := pnftSystem(pnftVariant{ID: "C06", Auth: true, StrictDelete: true, Ctl: []string{"NB", "XI"}})
 	dl := deadline(t, 150*time.Second, 15*time.Minute)
-	bounds := []explore.Bounds{{Depth: 5, V: 1, Deadline: dl}}
+	bounds := []explore.Bounds{{Depth: 4, V: 1, Deadline: dl}, {Depth: 5, V: 1, Deadline: dl}}
 	if t.Thorough {
 		bounds = []explore.Bounds{{Depth: 5, V: 1, Deadline: dl}, {Depth: 5, V: 2, Deadline: dl}, {Depth: 6, V: 2, Deadline: dl}, {Depth: 7, V: 2, Deadline: dl}}
 	}
 	RunGraph(run, sys, bounds, 8)
+	// second system: the governance route (another module's end blocker executing PNFT messages with nobody's signature)
+	govSys := pnftSystem(pnftVariant{ID: "C06/gov", Gov: true, StrictDelete: true, Ctl: []string{"NB"}})
+	gdl := deadline(t, 60*time.Second, 5*time.Minute)
+	gb := []explore.Bounds{{Depth: 4, V: 1, Deadline: gdl}, {Depth: 5, V: 1, Deadline: gdl}}
+	if t.Thorough {
+		gb = []explore.Bounds{{Depth: 5, V: 1, Deadline: gdl}, {Depth: 5, V: 2, Deadline: gdl}, {Depth: 6, V: 2, Deadline: gdl}}
+	}
+	RunGraph(run, govSys, gb, 4)
 	run.Assumptions = []string{
+		"C06/gov: governance with a 5 s (one block) voting period, 10umed deposit, one validator whose delegator A casts the only vote; in every distinct state the real EndBlock runs on a fork and must leave the pnft store byte-identical",
 		"accounts A,B,C are plain key accounts; A^ is A's address spelled in upper-case bech32 (same signer, different string)",
 		"mixed-case spellings: only the safety direction is asserted (an owner locked out by string comparison is a liveness quirk, not a violation)",
 		"delegation = x/authz GenericAuthorization",
@@ -671,14 +740,60 @@ func C12(t Tier) int {
 	run := report.NewRun("C12", t.Name, "model_checking", "E1+E2")
 	sys := pnftSystem(pnftVariant{ID: "C12", Wide: true, Queries: true, StrictDelete: true, Ctl: []string{"NB", "XI"}})
 	dl := deadline(t, 150*time.Second, 15*time.Minute)
-	bounds := []explore.Bounds{{Depth: 5, V: 1, Deadline: dl}}
+	bounds := []explore.Bounds{{Depth: 4, V: 1, Deadline: dl}, {Depth: 5, V: 1, Deadline: dl}}
 	if t.Thorough {
 		bounds = []explore.Bounds{{Depth: 5, V: 1, Deadline: dl}, {Depth: 5, V: 2, Deadline: dl}, {Depth: 6, V: 2, Deadline: dl}, {Depth: 7, V: 2, Deadline: dl}}
 	}
 	RunGraph(run, sys, bounds, 8)
+	// second initial state: 130 denoms (more than one default page of 100) owned alternately by A and B, one token each
+	bulk := pnftSystem(pnftVariant{ID: "C12/bulk", Bulk: 130, Queries: true, StrictDelete: true, Ctl: []string{"XI"}})
+	RunGraph(run, bulk, []explore.Bounds{{Depth: 2, V: 1, Deadline: deadline(t, 45*time.Second, 4*time.Minute)}}, 4)
 	run.Assumptions = []string{
+		"a second run starts from a genesis with 130 denoms (owners A/B alternating, one token each) and explores depth 2 + one export/import; large listings use a sparse pagination matrix (offsets at both ends and around 100)",
 		"identifier alphabet: denoms {d, dd, d\\0x}, tokens {t, tt, x\\0t} (prefixes of one another and the x/nft key delimiter)",
 		"query matrix per distinct state: Denom, PNFT over alphabet x alphabet, PNFTs, PNFTsByDenomOwner x 3 accounts, Denoms under the full pagination matrix, DenomsByOwner x 3 accounts",
 	}
 	return run.Finish()
+}
+
+// pnftGovOps: the alphabet of the C06/gov system - a reduced set of owner actions on denom d / token t plus the
+// governance route: proposals carrying PNFT messages whose actor is the gov module account (never an owner), a vote with
+// the chain's whole voting power, and block boundaries (the gov end blocker executes a passed proposal).
+func pnftGovOps(e *pnftEnv, v pnftVariant, createDenom func(string, *world.Account, string) explore.Op, mint func(string, string, *world.Account) explore.Op) []explore.Op {
+	A, B, C := e.A, e.B, e.C
+	s := func(a ...*world.Account) []*world.Account { return a }
+	gov := authtypes.NewModuleAddress(govtypes.ModuleName).String()
+	dep, _ := sdk.ParseCoinsNormalized("10umed")
+	prop, err := govv1.NewMsgSubmitProposal([]sdk.Msg{
+		pnfttypes.NewMsgTransferRequest("d", gov, C.Bech),
+	}, dep, A.Bech, "", "hand denom d to C", "governance acting on a denom it does not own")
+	if err != nil {
+		panic(err)
+	}
+	prop2, err := govv1.NewMsgSubmitProposal([]sdk.Msg{
+		pnfttypes.NewMsgUpdateDenomRequest("d", "", "renamed-by-gov", "", "", "", "", gov),
+		pnfttypes.NewMsgMintPNFTRequest("d", "tt", "minted-by-gov", "", "", "", gov, ""),
+	}, dep, A.Bech, "", "update denom d and mint in it", "governance acting on a denom it does not own")
+	if err != nil {
+		panic(err)
+	}
+	prop3, err := govv1.NewMsgSubmitProposal([]sdk.Msg{
+		pnfttypes.NewMsgTransferPNFTRequest("d", "t", gov, C.Bech),
+		pnfttypes.NewMsgBurnPNFTRequest("d", "t", gov),
+		pnfttypes.NewMsgDeleteDenomRequest("d", gov),
+	}, dep, A.Bech, "", "take token t", "governance acting on a token it does not own")
+	if err != nil {
+		panic(err)
+	}
+	ops := []explore.Op{
+		createDenom("d", A, A.Bech),
+		mint("d", "t", A),
+		txOp("TransferDenom(d,A->B)", s(A), pnfttypes.NewMsgTransferRequest("d", A.Bech, B.Bech)),
+		txOp("TransferPNFT(d,t,A->B)", s(A), pnfttypes.NewMsgTransferPNFTRequest("d", "t", A.Bech, B.Bech)),
+		txOp("SubmitProposal(TransferDenom(d,gov->C))", s(A), prop),
+		txOp("SubmitProposal(UpdateDenom(d,gov)+Mint(d,tt,gov))", s(A), prop2),
+		txOp("SubmitProposal(TransferPNFT(d,t,gov->C)+Burn+DeleteDenom)", s(A), prop3),
+		txOp("Vote(A,proposal1,yes)", s(A), govv1.NewMsgVote(A.Addr, 1, govv1.OptionYes, "")),
+	}
+	return append(ops, ctlOps(v.Ctl...)...)
 }
